@@ -106,7 +106,44 @@ class BuiltinMixin:
         vs = self.as_seq(v, st, "len()")
         yield V(INT, self.from_mathint(vs.length())), st
 
+    def _minmax_key(self, args, kwargs, st, is_min):
+        """min(iterable, key=f): trusted built-in contract — the result is an element r of the iterable with
+        f(r) <= f(x) for every element x (ties: any minimiser; CPython returns the first)"""
+        from .exec_call import fresh_mark, skolemize
+
+        it = self.make_iter(args[0], st)
+        key = kwargs["key"]
+        n = it.length
+        self.oblige(st, n >= 1, "safe", "min()/max() of a non-empty iterable", name=f"{self.cur_fn}::safe.ValueError")
+        ri = z3.Int(fresh_name("argmin"))
+        st.assume(z3.And(0 <= ri, ri < n))
+        rv = it.get(ri, st)
+
+        def keyval(idx, state):
+            outs = list(self.call_value(key, [it.get(idx, state)], {}, state))
+            if len(outs) != 1 or isinstance(outs[0][0], Exc):
+                raise Unsupported("key function forks or raises")
+            v = self.deref(outs[0][0], outs[0][1])
+            if not isinstance(v, V) or v.sort.kind not in ("int", "real", "bool"):
+                raise Unsupported("key function result is not numeric")
+            return self.real_of(v) if v.sort.kind == "real" else self.to_mathint(self.as_int(v)), outs[0][1]
+
+        kr, st1 = keyval(ri, st)
+        j = z3.Int(fresh_name("mj"))
+        mark = fresh_mark()
+        sub = st1.copy()
+        sub.assume(z3.And(0 <= j, j < n))
+        kj, sub2 = keyval(j, sub)
+        facts = sub2.pc[len(st1.pc) + 1:]
+        kj, *facts = skolemize(j, mark, [kj] + list(facts))
+        cmp_ = (kr <= kj) if is_min else (kr >= kj)
+        st1.assume(z3.ForAll([j], z3.Implies(z3.And(0 <= j, j < n), z3.And(cmp_, *facts))))
+        yield rv, st1
+
     def _minmax(self, args, kwargs, st, is_min):
+        if set(kwargs) == {"key"} and len(args) == 1:
+            yield from self._minmax_key(args, kwargs, st, is_min)
+            return
         if kwargs:
             raise Unsupported("min/max with key / default")
         if len(args) == 1:
@@ -218,6 +255,19 @@ class BuiltinMixin:
         else:
             yield V(INT, self.from_mathint(z3.ToInt(a.t))), st
 
+    def bi_sqrt(self, args, kwargs, st):
+        """math.sqrt as an uninterpreted strictly monotone function on non-negative reals (trusted: exact for
+        the integer radicands < 2**40 met here, where distinct integers have distinct float square roots)"""
+        (a,) = self.num_args(args, st)
+        x = self.real_of(a)
+        self.oblige(st, x >= 0, "safe", "sqrt of a non-negative number", name=f"{self.cur_fn}::safe.ValueError")
+        f = z3.Function("py_sqrt", z3.RealSort(), z3.RealSort())
+        u, w = z3.Real("u!sq"), z3.Real("w!sq")
+        ax = z3.ForAll([u, w], z3.Implies(z3.And(u >= 0, w >= 0), (f(u) <= f(w)) == (u <= w)), patterns=[z3.MultiPattern(f(u), f(w))])
+        if not any(ax.eq(g) for g in self.global_facts):
+            self.global_facts.append(ax)
+        yield V(REAL, f(x)), st
+
     def bi_divmod(self, args, kwargs, st):
         for q, s in self.binop(ast.FloorDiv(), args[0], args[1], st):
             if isinstance(q, Exc):
@@ -245,21 +295,39 @@ class BuiltinMixin:
         yield args[1], st
 
     def bi_hash(self, args, kwargs, st):
-        """hash(tuple): an uninterpreted function of the tuple's component values (equal values, equal hash)."""
+        """hash(tuple) = tuplehash_n(h(c1), ..., h(cn)) with per-component hashes: ints hash to themselves,
+        None to the constant hash_none, Optional[T] accordingly, everything else through an uninterpreted
+        function of the value (equal values, equal hashes — the only property of hash() relied upon)."""
         v = self.deref(args[0], st)
         if not isinstance(v, VTuple):
             raise Unsupported("hash of non-tuple")
-        terms = []
-        for x in v.items:
+        isort = self.U.intsort()
+        hnone = z3.Const("hash_none", isort)
+
+        def h(x):
             x = self.deref(x, st)
             if isinstance(x, VSeq):
                 x = V(x.sort, self.to_term(x, x.sort, st))
+            if isinstance(x, ObjState):
+                so_ = Sort("rec", (), x.cls)
+                x = V(so_, self.to_term(x, so_, st))
             if not isinstance(x, V):
                 raise Unsupported("hash component")
-            terms.append(x)
-        sig = [self.U.z3sort(x.sort) if x.sort.kind != "none" else self.U._unit() for x in terms]
-        f = z3.Function("pyhash_" + "_".join(str(s) for s in sig).replace(" ", ""), *sig, self.U.intsort())
-        yield V(INT, f(*[x.t if x.sort.kind != "none" else self.U._unit().unit for x in terms])), st
+            k = x.sort.kind
+            if k == "none":
+                return hnone
+            if k in ("int", "bool"):
+                return self.as_int(x)
+            if k == "opt":
+                dt = self.U.z3sort(x.sort)
+                inner = self.from_term(dt.val(x.t), x.sort.args[0], st)
+                return z3.If(dt.is_none(x.t), hnone, h(inner))
+            f = z3.Function("hash_" + str(self.U.z3sort(x.sort)).replace(" ", "_"), self.U.z3sort(x.sort), isort)
+            return f(x.t)
+
+        comps = [h(x) for x in v.items]
+        tf = z3.Function(f"tuplehash_{len(comps)}", *([isort] * len(comps)), isort)
+        yield V(INT, tf(*comps)), st
 
     def bi_isinstance(self, args, kwargs, st):
         v = self.deref(args[0], st)
@@ -400,6 +468,23 @@ class BuiltinMixin:
         st.assume(z3.ForAll([k], z3.Implies(z3.And(0 <= k, k < it.length), z3.And(arr[k] == term, *facts)), patterns=[arr[k]]))
         return self.box_list(seqs.view(arr, z3.IntVal(0), z3.simplify(it.length), es), st)
 
+    def bi___new__(self, args, kwargs, st):
+        cls = self.deref(args[0], st)
+        if not (isinstance(cls, VFunc) and cls.kind == "class" and cls.name in self.U.records):
+            raise Unsupported("__new__ of an undeclared class")
+        r = new_ref()
+        st.heap[r] = ObjState(cls.name, {})
+        yield VRef(r), st
+
+    def bi_time(self, args, kwargs, st):
+        yield self.fresh(REAL, "time", st), st
+
+    def bi_randint(self, args, kwargs, st):
+        (a, b) = self.num_args(args, st)
+        r = self.fresh(INT, "randint", st)
+        st.assume(z3.And(r.t >= self.as_int(a), r.t <= self.as_int(b)))
+        yield r, st
+
     def bi_getattr(self, args, kwargs, st):
         """getattr(opaque, "literal", None): an uninterpreted Optional attribute of the object"""
         obj = self.deref(args[0], st)
@@ -423,6 +508,12 @@ class BuiltinMixin:
             r0 = self.from_term(r0.t, r0.sort, st)
         if isinstance(r0, VSeq) and not r0.is_str:
             if not isinstance(recv, VRef):
+                if name == "__getitem__":
+                    yield from self.do_index(r0, args[0], st)
+                    return
+                if name == "copy":
+                    yield self.box_list(VSeq(r0.elem, list(r0.pieces)), st), st
+                    return
                 raise Unsupported(f"list method .{name} on an immutable list value")
             yield from self.list_method(recv, r0, name, args, kwargs, st)
             return
